@@ -52,7 +52,8 @@ def run(p: Program, rep: Report, tier: str) -> None:
         if st is None or body is None:
             raise AnalysisError(f"{side} Request.stream/body vanished")
         rep.analysed(st.fq, body.fq)
-        paths, col, it = run_paths(p, st, req, raises=None, yield_raises=False)
+        from ..common import unit_inline as _unit10
+        paths, col, it = run_paths(p, st, req, raises=None, yield_raises=False, inline=_unit10(("baize.utils",), ()))
         rep.cfg_paths += len(paths)
         n_read = n_replay = n_raise = 0
         for pa in paths:
@@ -60,7 +61,19 @@ def run(p: Program, rep: Report, tier: str) -> None:
             flag_false = (CONSUMED, False) in pa.facts
             flag_true = (CONSUMED, True) in pa.facts
             sets = [i for i, e in enumerate(pa.events) if e.kind == "store" and e.a == CONSUMED and e.b == ("const", True)]
-            replay = any(t and "'body' in self.__dict__" in show(f) for f, t in pa.facts) and not any((not t) and "'body' in self.__dict__" in show(f) for f, t in pa.facts)
+            def _cached_present(f, t):
+                """True / False when the fact says that the cached `body` entry is present / absent, None when it is about something else:
+                `'body' in self.__dict__`, or `self.__dict__.get('body', <sentinel>) is <sentinel>` (any default, also None)"""
+                if "'body' in self.__dict__" in show(f):
+                    return bool(t)
+                if f[0] == "cmp" and f[1] == "Is":
+                    for a_, b_ in ((f[2], f[3]), (f[3], f[2])):
+                        if a_[0] == "call" and a_[1] == ("attr", ("attr", ("param", "self"), "__dict__"), "get") and a_[2][:1] == (("const", "body"),) \
+                                and (b_ == (a_[2][1] if len(a_[2]) > 1 else ("const", None))):
+                            return not t
+                return None
+            present = [_cached_present(f, t) for f, t in pa.facts]
+            replay = any(x is True for x in present) and not any(x is False for x in present)
             if reads:
                 n_read += 1
                 node, fnn = col.nodes[pa.events[reads[0]].tag]
@@ -91,7 +104,13 @@ def run(p: Program, rep: Report, tier: str) -> None:
         elif not (n_read and n_replay and n_raise):
             rep.undecide("R10.1", f"{side}: stream() lacks a read path / replay path / consumed path ({n_read}/{n_replay}/{n_raise})")
         # R10.3
-        if side == "asgi":
+        via_iterator = any(e.kind == "call" and e.a[0] == "attr" and e.a[2] in ("__anext__", "__next__") and e.a[1][0] == "obj" for pa in paths for e in pa.events)
+        if via_iterator:
+            # the receive loop lives in the __next__/__anext__ of an iterator object that keeps state between steps: the clauses below
+            # (loop exit only after more_body false, disconnect -> ClientDisconnect, every chunk yielded) are written for a loop in
+            # stream() itself and are not decided for that shape
+            rep.undecide("R10.3", f"{side}: stream() pulls its chunks from an iterator object (state kept between steps): the receive-loop clauses are not decided")
+        if side == "asgi" and not via_iterator:
             for pa in paths:
                 reads = _reads(pa, side)
                 if not reads or pa.exit != "return":
@@ -118,7 +137,9 @@ def run(p: Program, rep: Report, tier: str) -> None:
             okg = False
             for y in ys:
                 gs = [(ast.unparse(g), pol) for g, pol in _guards_of(y, st.node)]
-                inner = [g for g in gs if not ("'type'" in g[0] or '"type"' in g[0])]
+                type_names = {t.id for n in ast.walk(st.node) if isinstance(n, ast.Assign) and isinstance(n.value, ast.Subscript) and isinstance(n.value.slice, ast.Constant) and n.value.slice.value == "type"
+                              for t in n.targets if isinstance(t, ast.Name)}
+                inner = [g for g in gs if not ("'type'" in g[0] or '"type"' in g[0] or any(tn in g[0].replace("(", " ").replace(")", " ").split() for tn in type_names))]
                 if all(pol and (g in body_names) for g, pol in inner):
                     okg = True
             if ys and okg:
@@ -127,7 +148,7 @@ def run(p: Program, rep: Report, tier: str) -> None:
                 rep.violation("R10.3", construct(st, text="chunk yield guarded"), where(st, ys[0]), "asgi: a received chunk is yielded only under an extra condition (chunks can be skipped)")
             else:
                 rep.violation("R10.3", construct(st, text="chunks not yielded"), where(st), "asgi: received chunks are not yielded")
-        else:
+        elif side == "wsgi":
             # WSGI: return only on an empty read; every non-empty chunk yielded
             r = wsgi_read_loop(st)
             if r[0] == "ok":
@@ -308,17 +329,30 @@ def run(p: Program, rep: Report, tier: str) -> None:
     # the USER to delete the attribute; library code doing it - e.g. evicting a failed future - makes the next access
     # re-run the accessor on an already consumed stream instead of returning the identical cached result.)
     n_scan = 0
+    # what the rule protects are the cached accessor results of the request objects: an entry of an instance __dict__ whose key is
+    # (or may be) the name of a cached accessor. A descriptor of some other class that keeps ITS value in the instance __dict__
+    # under its own name (a state field of the websocket wrapper) is not that.
+    cached_names = {m_.name for side_ in ("wsgi", "asgi") for c_ in [p.cls(f"baize.{side_}.requests:Request")] + [x for x in p.mro(p.cls(f"baize.{side_}.requests:Request")) if isinstance(x, ClassInfo)]
+                    for m_ in dict.values(c_.methods) if any("cached_property" in d_ for d_ in m_.decorators)}
+    REQ_MODS = ("baize.utils", "baize.requests", "baize.wsgi.requests", "baize.asgi.requests")
+
+    def _relevant(fn_, key_expr) -> bool:
+        if isinstance(key_expr, ast.Constant):
+            return key_expr.value in cached_names
+        return fn_.module.name in REQ_MODS or key_expr is None
+
     for fn in p.all_functions():
         n_scan += 1
         for n in ast.walk(fn.node):
             hit = None
             if isinstance(n, ast.Delete):
                 for t in n.targets:
-                    if isinstance(t, ast.Subscript) and isinstance(t.value, ast.Attribute) and t.value.attr == "__dict__":
+                    if isinstance(t, ast.Subscript) and isinstance(t.value, ast.Attribute) and t.value.attr == "__dict__" and _relevant(fn, t.slice):
                         hit = f"del {ast.unparse(t.value)}[...]"
                     elif isinstance(t, ast.Attribute) and isinstance(t.value, ast.Name) and t.value.id in ("self", "request", "obj") and fn.module.name.endswith(("requests", "utils")):
                         hit = f"del {ast.unparse(t)}"
-            elif isinstance(n, ast.Call) and isinstance(n.func, ast.Attribute) and n.func.attr in ("pop", "popitem", "clear", "__delitem__") and isinstance(n.func.value, ast.Attribute) and n.func.value.attr == "__dict__":
+            elif isinstance(n, ast.Call) and isinstance(n.func, ast.Attribute) and n.func.attr in ("pop", "popitem", "clear", "__delitem__") and isinstance(n.func.value, ast.Attribute) and n.func.value.attr == "__dict__" \
+                    and _relevant(fn, n.args[0] if n.args else None):
                 hit = f"{ast.unparse(n.func.value)}.{n.func.attr}(...)"
             elif isinstance(n, ast.Call) and isinstance(n.func, ast.Name) and n.func.id == "delattr":
                 hit = "delattr(...)"
@@ -341,7 +375,7 @@ def run(p: Program, rep: Report, tier: str) -> None:
         for n in ast.walk(fn.node):
             if isinstance(n, (ast.Assign, ast.AugAssign, ast.AnnAssign)):
                 for t in (n.targets if isinstance(n, ast.Assign) else [n.target]):
-                    if isinstance(t, ast.Subscript) and isinstance(t.value, ast.Attribute) and t.value.attr == "__dict__":
+                    if isinstance(t, ast.Subscript) and isinstance(t.value, ast.Attribute) and t.value.attr == "__dict__" and _relevant(fn, t.slice):
                         own_stores += 1
                         rep.violation("R10.2", construct(fn, text="cache overwrite: " + ast.unparse(t)), where(fn, n), f"{fn.fq} writes an instance __dict__ entry outside cached_property: a cached accessor result can be replaced")
     if not any(v for v in rep.violations if "cache eviction" in str(v) or "cache overwrite" in str(v)):
